@@ -509,6 +509,10 @@ let () =
             (match tagged "ops" sx, Hashtbl.find_opt nets id with
              | e :: ops, Some (n, _) ->
                incr checks; incr builds;
+               (* the hypothesis ids_fresh of built_wf, on the ids the library drew for this construction *)
+               let ids = List.map string_of_chars (supplied_ids (ent_of e) (List.map op_of ops)) in
+               if List.length (List.sort_uniq compare ids) <> List.length ids then
+                 report "build-ids" id "the entity ids supplied to the logged calls are not pairwise distinct (hypothesis ids_fresh)";
                (match build (ent_of e) (List.map op_of ops) with
                 | Some n' ->
                   let a = canon (sx_net (prune n)) and b = canon (sx_net (prune n')) in
